@@ -81,7 +81,7 @@ def _leaf_attrs(r, swarm):
     elif kind == 'nonneg':
         a.update(updater='nonnegative_accumulate', default=r.rint(0, 20))
     elif kind == 'merge':
-        a.update(updater='merge', default={'a': 1, 'b': {'c': r.rint(0, 9)}})
+        a.update(updater='merge', default={'a': 1, 'b': {'c': r.rint(0, 9)}, 'h': {'i': {'j': r.rint(0, 9)}}})
     elif kind == 'dict_value':
         a.update(updater='dict_value', default={'k0': {'n': r.rint(0, 9)}})
     elif kind == 'affine':
@@ -135,7 +135,9 @@ def _vals_for(r, a, pname, swarm):
             v = r.rint(-40, 20)
         elif kind == 'merge':
             v = r.pick([{'b': {'d': r.rint(0, 9)}}, {'e': r.rint(0, 9)}, {'a': r.rint(2, 9)},
-                        {'b': {'c': r.rint(0, 9)}, 'f': {'g': 1}}, {}])
+                        {'b': {'c': r.rint(0, 9)}, 'f': {'g': 1}}, {},
+                        {'h': {'i': {'k': r.rint(0, 9)}}}, {'h': {'m': {'n': r.rint(0, 9)}}},
+                        {'h': {'m': {'o': r.rint(0, 9)}, 'i': {'j': r.rint(0, 9)}}}])
         elif kind == 'dict_value':
             v = r.pick([{'_add': [{'key': 'k_%s_%d' % (pname, i), 'state': {'n': r.rint(0, 9)}}]},
                         {'k0': {'n': r.rint(0, 9), 'm': 1}}, {'k0': {}}])
